@@ -23,6 +23,8 @@ RULE = ("structure stage: whole reference proteins with threaded clusters (acid-
         "contains a Coulomb determinant between like-charged groups, an ion determinant, a ligand-group determinant "
         "or an exception-value side-chain determinant (classes absent from most reference files); distinct by hash.")
 ASSUMPTIONS = [
+    "which group types are acids (COO, CYS, TYR, SER, OCO, OP, SH) and bases (HIS, LYS, ARG, N+, CG, C2N, N30-N33, NAR) "
+    "is taken from the method's publications, not from the charge table of the parameter file",
     "default options and parameter files that change desolvationAllowance / remove_penalised_group / "
     "common_charge_centre / shared_determinants; with shared_determinants only the magnitude bounds are asserted: "
     "that option copies determinants between covalently coupled groups regardless of their charge (the coupled-residue display mode re-orders interactions on "
@@ -30,6 +32,10 @@ ASSUMPTIONS = [
     "side-chain bound: 2 x sidechain_interaction, except pairs of the types that have a configured exception value "
     "(CYS-CYS, COO-HIS, OCO-HIS, CYS-HIS), which may take that value; maxima are read from the parameters the run used",
 ]
+# which group types are acids and which are bases (Olsson et al. 2011, Sondergaard et al. 2011): independent of the
+# charge table of the parameter file, which the sign clauses would otherwise follow blindly
+ACID_TYPES = {"COO", "CYS", "TYR", "SER", "OCO", "OP", "SH"}
+BASE_TYPES = {"HIS", "LYS", "ARG", "N+", "CG", "C2N", "N30", "N31", "N32", "N33", "NAR"}
 COULOMB_SCALING = 244.12
 DIEL_BURIED = 30.0
 
@@ -87,6 +93,11 @@ def check_case(case):
             if not g["titratable"]:
                 continue
             q = sign(g["charge"])
+            kind = -1 if g["type"] in ACID_TYPES else 1 if g["type"] in BASE_TYPES else 0
+            if kind and q and q != kind:
+                v.append({"clause": "acid-or-base", "detail": "%s of type %s (an %s) carries charge %r" % (
+                    g["label"], g["type"], "acid" if kind < 0 else "base", g["charge"])})
+                continue
             if q == 0:
                 v.append({"clause": "titratable-has-charge", "detail": "%s charge %r" % (g["label"], g["charge"])})
                 continue
